@@ -871,6 +871,23 @@ pub fn run_c17(rep: &Report) -> i32 {
         }
     }
     rep.add("long_unknown_lines_every_cut_offset_modulo_the_word_period", (long_inputs.len() * 2) as u64);
+    // reads that FAIL (not end of file): standard input is the master end of a pseudo-terminal whose slave end
+    // is closed (tools/pty_close.py): the process must end, whatever its status, instead of reading on for ever
+    for bin in [BIN_ON, BIN_OFF] {
+        let dir = scratch_dir();
+        let out = Command::new("python3").args(["/verif/tools/pty_close.py", bin, dir.to_str().unwrap_or("/tmp")]).output();
+        let _ = std::fs::remove_dir_all(&dir);
+        match out {
+            Ok(o) if o.status.code() == Some(0) => {
+                lifecycle_runs.fetch_add(1, Ordering::Relaxed);
+            }
+            Ok(o) if o.status.code() == Some(1) => {
+                lifecycle_runs.fetch_add(1, Ordering::Relaxed);
+                rep.fail("C17", "read-error-on-standard-input-leaves-the-process-running", format!("{}: standard input is a pseudo-terminal whose other end was closed (reads fail with EIO): {}", bin, String::from_utf8_lossy(&o.stdout).trim()), J::obj().set("kind", J::s("c17-pty")).set("command", J::s(&format!("python3 /verif/tools/pty_close.py {} <dir>", bin))));
+            }
+            other => rep.note(format!("the pseudo-terminal experiment could not be run ({:?}): not part of this run", other.map(|o| o.status.code()))),
+        }
+    }
     rep.add("sessions_with_a_garbage_line", garbage_runs.load(Ordering::Relaxed));
     rep.add("isready_answered_with_readyok", readyoks.load(Ordering::Relaxed));
     rep.add("lifecycle_runs_quit_or_end_of_input", lifecycle_runs.load(Ordering::Relaxed));
@@ -1262,6 +1279,22 @@ pub fn c03_sessions(rep: &Report, prop: &str) -> (u64, u64) {
                 if p == n {
                     break;
                 }
+            }
+        }
+    }
+    // a first go that gets well into its second iteration (the board it leaves behind carries the marks of a
+    // principal variation), then a second one with no or next to no time, on roots where the reply can castle
+    // or capture en passant (successors built by copying the root board)
+    for r in seq_roots.iter().chain(["position fen r3k2r/pppppppp/8/8/3q4/4P3/PPPP1PPP/R3K2R w KQkq - 0 1", "position fen r3k2r/p1ppqpb1/bn2pnp1/3PN3/1p2P3/2N2Q1p/PPPBBPPP/R3K2R w KQkq - 0 1", "position fen 4k3/8/8/8/1p6/8/P7/4K3 w - - 0 1", "position fen 4k3/p7/8/1P6/8/8/8/4K3 b - - 0 1"].iter()) {
+        for big in [400u64, 3000] {
+            for second in [Some(0u64), Some(1), Some(3), None] {
+                let mut s = vec![c(r), go(GO_TIMED, big)];
+                match second {
+                    Some(k) => s.push(go(GO_TIMED, k)),
+                    None => s.push(c("go")),
+                }
+                s.push(c("isready"));
+                sessions.push(s);
             }
         }
     }
